@@ -20,7 +20,11 @@ POS = ['http://{}@h.example/p', 'http://{}/p', 'http://h.example:{}/p', 'http://
 ESC_LOWER = re.compile(r'%([0-9A-Fa-f][a-f]|[a-f][0-9A-Fa-f])')
 
 
-def check(u, enc='utf-8'):
+ESC_ANY = re.compile(r'%[0-9A-Fa-f]{2}')
+HOSTPART = re.compile(r'^[a-z]+://[a-z.]+(?=[/?#]|$)')          # scheme and a plain host name directly followed by the path (no user info, no port)
+
+
+def check(u, enc='utf-8', equiv=False):
     """-> None or (clause, detail)"""
     try:
         a = URLInfo.parse(u, encoding=enc)
@@ -43,6 +47,14 @@ def check(u, enc='utf-8'):
     segs = a.path.split('/')
     if not a.path.startswith('/') or any(s in ('.', '..') for s in segs) or any(s == '' for s in segs[1:-1]): return ('dot-segments', '%r -> path %r' % (u, a.path))
     if ESC_LOWER.search(a.path + '?' + (a.query or '')): return ('escape-case', '%r -> %r' % (u, n))
+    if equiv:
+        # "spellings that differ only in those respects normalize to the same string": the same URL with every percent escape in upper case, in lower case, and
+        # with scheme and host in upper case
+        for v in (ESC_ANY.sub(lambda m: m.group(0).upper(), u), ESC_ANY.sub(lambda m: m.group(0).lower(), u), HOSTPART.sub(lambda m: m.group(0).upper(), u, 1) if '@' not in u else u):
+            if v == u: continue
+            try: vn = URLInfo.parse(v, encoding=enc).url
+            except ValueError: continue
+            if vn != n: return ('equivalence', '%r -> %r but the spelling %r -> %r' % (u, n, v, vn))
     return None
 
 
@@ -65,7 +77,7 @@ def work(args):
             s = ''.join(tup)
             for p in POS:
                 u = p.format(s); cnt += 1
-                r = check(u)
+                r = check(u, equiv=True)
                 if r: bad.append((r[0], r[1]))
                 elif len(nontriv) < 400000: nontriv.add(hash(u))
     return cnt, len(nontriv), bad[:2000]
